@@ -333,6 +333,20 @@ def main():
         # nothing of an undecided unit counts as discharged
         pass
 
+    # obligations covered by a listed known finding are reported separately: the proof-level
+    # counts (obligations == discharged on a clean run) are about the rest
+    known_ids = set(f["obligation"] for (_, f) in known_hits)
+    n_known_excluded = 0
+    if known_ids:
+        keep = []
+        for o in obligations:
+            if o["id"] in known_ids or any(k.startswith(o["id"]) for k in known_ids):
+                n_known_excluded += 1
+            else:
+                keep.append(o)
+        undischarged = [x for x in undischarged if x not in known_ids and not any(k.startswith(x) for k in known_ids)]
+        discharged = len(keep) - len(undischarged)
+        obligations = keep
     rc = 0
     lines = []
     replay_paths = []
@@ -368,6 +382,7 @@ def main():
             "solver_time_s": round(smt_s, 3),
             "violated": sorted(set(f["obligation"] for f in viol)),
             "known_findings": sorted(set(f["obligation"] for (_, f) in known_hits)),
+            "known_finding_obligations_excluded_from_counts": n_known_excluded,
             "undischarged": undischarged,
             "undecided": undecided,
             "bounded": bounded,
@@ -404,6 +419,9 @@ def obligation_match(pattern, oid):
 RULE_NOTES = {
     "R0": "visibility `pub(crate)`/`pub(super)` -> `pub` (no run-time meaning; the generated file is one crate)",
     "R4": "`for x in A.iter()`/`&A` over Vec/slice -> index loop (definition of slice iteration; increment before body)",
+    "R4b": "`for x in V` consuming a Vec -> `let mut it = V.into_iter(); while let Some(x) = it.next()` (definition of `for`)",
+    "R6": "`for x in A.iter().rev()` -> descending index loop (definition of rev on slices)",
+    "R7": "`for x in A.iter().chain(B.iter())` over literal tables -> index loop over A then B",
     "R5": "`for (a,b) in A.iter().zip(B)` -> index loop to min(len) (definition of zip on slices)",
     "R8": "`A.iter().zip(B.iter()).all(f)` -> short-circuit index loop (definition of all)",
     "R9": "format!/msgtext!/msgcode!/print macros -> opaque value (no obligation depends on message text)",
